@@ -406,7 +406,7 @@ def child(setting: str, seed: int) -> dict:
     env = dict(os.environ)
     env["SPARSE_AUTO_DENSIFY"] = setting
     env.setdefault("NUMBA_CACHE_DIR", "/var/tmp/verif-numba-cache")
-    r = subprocess.run([sys.executable, str(Path(__file__).with_name("c07_child.py")), str(seed)], env=env, capture_output=True, text=True, timeout=600)
+    r = subprocess.run([sys.executable, str(Path(__file__).with_name("c07_child.py")), str(seed)], env=env, capture_output=True, text=True, timeout=3600)
     if r.returncode != 0:
         raise RuntimeError(f"c07_child failed (SPARSE_AUTO_DENSIFY={setting}): {r.stderr[-600:]}")
     return json.loads(r.stdout.strip().splitlines()[-1])
